@@ -92,6 +92,32 @@ HANDLERS = [
 ]
 
 
+_DU_CACHE = {}
+
+
+def return_status(ctx, fi, r) -> Optional[int]:
+    """HTTP status answered by return node *r* of *fi*: of the returned expression, or - when a local name is
+    returned - of every expression that name can hold there (None if unknown or not unique)."""
+    v = r.ast.value
+    if v is None:
+        return None
+    st = response_status(ctx, fi, v)
+    if st is not None or not isinstance(v, (ast.Name, ast.Await)):
+        return st
+    cfg = ctx.cfg(fi)
+    key = (id(ctx), fi.qualname)
+    du = _DU_CACHE.get(key)
+    if du is None:
+        _DU_CACHE.clear()
+        du = _DU_CACHE[key] = DefUse(cfg)
+    sts = set()
+    for o in origins(du, r, v):
+        if o.kind != "expr" or o.leaf is None or o.path:
+            return None
+        sts.add(response_status(ctx, fi, o.leaf))
+    return sts.pop() if len(sts) == 1 else None
+
+
 def response_status(ctx, fi, e: ast.AST) -> Optional[int]:
     """HTTP status of a returned expression, None if unknown."""
     if isinstance(e, ast.Await):
@@ -179,7 +205,7 @@ def o2(ctx):
                 if m.id not in after:
                     continue
                 if m.kind == "return" and m.ast.value is not None:
-                    st = response_status(ctx, fi, m.ast.value)
+                    st = return_status(ctx, fi, m)
                     if st is not None and 400 <= st < 500:
                         bad.setdefault("return-%d" % st, []).append((m, "returns %d" % st))
                 for e in sorted(F.node_refusals(fi, m, CLIENT_ERRORS)):
@@ -526,7 +552,7 @@ def w1(ctx):
       desc="an acknowledged write is performed: _import_one returns normally only after the commit, or through the "
            "'unchanged' side of the comparison of the new and the old object id")
 def w2(ctx):
-    from .c09 import BARE, TREE, _commit_nodes, _is_change_test
+    from .c09 import BARE, TREE, _commit_nodes, _is_change_test, _index_names
     obs = []
     for cq in (BARE, TREE):
         fi = ctx.own_method(cq, "_import_one")
@@ -535,7 +561,7 @@ def w2(ctx):
         commits = _commit_nodes(cfg)
         if not commits:
             raise AnalysisError("%s._import_one: no _commit_tree call" % cq)
-        index_vars = {d.name for n in cfg.nodes for d in du.defs_at.get(n.id, []) if d.kind == "with"}
+        index_vars = _index_names(cfg, du)
         unchanged_edges = []
         for n in cfg.nodes:
             if n.kind != "test":
